@@ -218,7 +218,7 @@ pub fn c16(a: &Args) -> i32 {
         std::thread::sleep(Duration::from_millis(20));
         stalls += log.ev.lock().unwrap().iter().filter(|(_, e)| e["ev"] == "silence" || e["ev"] == "not_started" || (e["ev"] == "probe" && e["accepted"] == json!(false))).count();
         // release anything that may still be parked so that a stalled server can wind down
-        for n in 0..=next_n + 2 {
+        for n in 0..=next_n {
             gates.release(n);
         }
         log.push(json!({"ev": "end", "gauge_now": gauge.load(Ordering::SeqCst)}));
